@@ -30,6 +30,8 @@ CONSTANTS Ids,        \* identifiers usable as explicit entity ids (integers; th
           Acts,       \* enabled action families: subset of {"create","create2","add","remove","delete","process","clear","toggle","probe","proc","fault","ghost","inframe","probekill"}
           ReplaceBeforeIndex, AutoIdSkipsUsed, ImmediateDeleteNotifies, ClearKeepsSelf,
           RelayOnlyDeclared, CreateNotifiesReplaced, ClearDeadGuards, WalkVisitsOnce,
+          SharedStaysRegistered, \* (D30) an instance attached to several entities is unregistered when it leaves the LAST one
+                                 \* FALSE = as implemented at 05622c8: unregistered at the first removal
           CreateAttachesInTurn   \* (D29) create_entity(x, y) with x and y of one type: x is attached (on_add) and then
                                  \* replaced by y (on_remove, unregistered), as two add_component calls would do.
                                  \* FALSE = as implemented at 05622c8: x hears on_remove BEFORE on_add and stays registered
@@ -74,7 +76,9 @@ RowsDel(rs, e, t) == IF e \notin DOMAIN rs THEN rs
 RowsPut(rs, e, t, c) == Put(rs, e, Put(Row(rs, e), t, c))
 
 Attached(rs) == {rs[e][t] : <<e, t>> \in {p \in (DOMAIN rs) \X Types : p[2] \in DOMAIN rs[p[1]]}}
-Free(c) == c \notin Attached(rows)
+\* one instance is attached to one entity at a time, unless the "shared" family lifts the restriction (the same instance
+\* given to several entities, or to the entity that already holds it)
+Free(c) == "shared" \in Acts \/ c \notin Attached(rows)
 IsHandler(c) == Decl[c] # {}
 
 ----------------------------------------------------------------------------
@@ -103,7 +107,8 @@ Detach(w, e, t) ==
         w1 == [w EXCEPT !.index = IdxDel(@, t, e), !.rows = RowsDel(@, e, t),
                         !.dead = IF ClearDeadGuards /\ e \notin DOMAIN RowsDel(w.rows, e, t) THEN @ \ {e} ELSE @]
         w2 == IF IsHandler(c) THEN NotifyRemove(w1, c, e) ELSE w1
-    IN [w2 EXCEPT !.reg = @ \ {c}]
+    \* a shared instance stays a listener until it leaves the last entity that holds it (D30)
+    IN IF SharedStaysRegistered /\ c \in Attached(w2.rows) THEN w2 ELSE [w2 EXCEPT !.reg = @ \ {c}]
 
 \* tables only
 Tables(w, e, c) == [w EXCEPT !.index = IdxAdd(@, TypeOf[c], e), !.rows = RowsPut(@, e, TypeOf[c], c)]
@@ -508,7 +513,7 @@ IndexIsTranspose ==
     /\ \A t \in DOMAIN index : index[t] # {} /\ \A e \in index[t] : e \in DOMAIN rows /\ t \in DOMAIN rows[e]
     /\ \A e \in DOMAIN rows : DOMAIN rows[e] # {} /\ \A t \in DOMAIN rows[e] : t \in DOMAIN index /\ e \in index[t]
 RowsWellTyped == \A e \in DOMAIN rows : \A t \in DOMAIN rows[e] : TypeOf[rows[e][t]] = t
-OneOwner == \A p, q \in Owns : p[2] = q[2] => p[1] = q[1]
+OneOwner == ("shared" \in Acts) \/ \A p, q \in Owns : p[2] = q[2] => p[1] = q[1]
 QueriesAgree == \A T \in Types, e \in Ids \cup (1..MaxAuto), t \in Types :
     GetCount(T, e, t) = IF e \in DOMAIN rows /\ t \in DOMAIN rows[e] /\ t \in SubOf(T) THEN 1 ELSE 0
 AutoIdFresh == bad # "auto_id_in_use"
